@@ -66,6 +66,7 @@ def work(job: Any) -> Dict[str, Any]:
                 return M, read_struct(cm, M, st, False)
 
             cexs = []
+            aborted = ""
             try:
                 for p in eng.explore(h):
                     if p.exc is not None:
@@ -84,18 +85,23 @@ def work(job: Any) -> Dict[str, Any]:
                     elif len(res["samples"]) < 1:
                         res["samples"].append({"evolution": ec.name, "steps": list(ec.steps), "message": cm.name, "config": cfg.name(), "ir_steps": M.steps, "verdict": "unsat"})
             except Inconclusive as e:
-                res["inconclusive"].append(f"{ec.name}.{cm.name} [{cfg.name()}]: {type(e).__name__}: {e}")
+                aborted = f"{ec.name}.{cm.name} [{cfg.name()}]: {type(e).__name__}: {e}"
             for k in ("paths", "queries", "unsat", "sat", "unknown"):
                 res[k] += eng.stats.get(k, 0)
             res["solver_s"] += eng.stats.get("solver_s", 0.0)
             # native: new real encoder -> old real decoder
             rng = random.Random(hash(ec.name) & 0xFFFF)
             tests = [("cex", v, w) for v, w in cexs[:3]] + ([] if cexs else [("wit", v, "") for v in extreme_values(lay_n, rng, 1)[:2]])
+            if aborted:
+                # the symbolic run could not finish (typically: a wrong skip makes the cursor symbolic). The extreme
+                # values still run natively: a failure there is a confirmed violation, otherwise stay inconclusive.
+                tests = [("cex", v, "symbolic run aborted: " + aborted.split(": ", 1)[-1][:80]) for _, v, _ in tests]
             try:
                 so_old, so_new = cb_old.shared_object("O2"), cb_new.shared_object("O2")
             except Inconclusive as e:
                 res["inconclusive"].append(f"{ec.name}: {e}")
                 continue
+            native_bad = 0
             for kind, v, why in tests:
                 wire, _ = native_encode(so_new, "Encode" + cmn.name, pack_struct(cmn, v), lay_n.nbytes)
                 raw, guard_ok = native_decode(so_old, "Decode" + cm.name, wire, cm.sizeof)
@@ -119,9 +125,13 @@ def work(job: Any) -> Dict[str, Any]:
                 if bad is None and ("OOB" in why or "UB" in why):
                     res["violations"].append({"what": f"{ec.name} [{', '.join(ec.steps)}] {cm.name} [{cfg.name()}]: {why} (interpreter memory model; no observable difference natively)", "payload": payload, "confirmed": True, "info": {"kind": "memory", "key": evo_key(ec)}})
                 elif bad is None:
-                    res["inconclusive"].append(f"{ec.name}: solver model did not reproduce natively")
+                    if not aborted:
+                        res["inconclusive"].append(f"{ec.name}: solver model did not reproduce natively")
                 else:
+                    native_bad += 1
                     res["violations"].append({"what": f"{ec.name} [{', '.join(ec.steps)}] {cm.name} [{cfg.name()}]: {bad}", "payload": payload, "confirmed": True, "info": {"kind": "c-evo", "key": evo_key(ec)}})
+            if aborted and not native_bad:
+                res["inconclusive"].append(aborted)
     return res
 
 
@@ -169,7 +179,20 @@ def evo_key(ec: EvoCase) -> str:
                 return any(contains(f.type, target, depth + 1) for f in tg.fields)
         return False
 
+    def contains_arr(t: Any, target: Any, depth: int = 0) -> bool:
+        if depth > 8:
+            return False
+        if isinstance(t, TArray):
+            return t is target or contains_arr(t.el, target, depth + 1)
+        if isinstance(t, TRef):
+            tg = t.target
+            if isinstance(tg, Alias):
+                return contains_arr(tg.to, target, depth + 1)
+            if isinstance(tg, Message):
+                return any(contains_arr(f.type, target, depth + 1) for f in tg.fields)
+        return False
+
     for a in grown_arr:
-        if any(contains(a.el, m) for m in grown_msg):
+        if any(contains(a.el, m) for m in grown_msg) or any(b is not a and contains_arr(a.el, b) for b in grown_arr):
             return "c-ext-array-of-grown-ext-elements"
     return ""
